@@ -196,12 +196,32 @@ theorem strip_pageSel (s : SPageSel) : strip s.toks = s.noC.toks := by
     | none => rfl
     | some p => rfl
 
+/-- the optional name without the comments of its gap -/
+def SName.noC : SName → SName
+  | some (q, n, g) => some (q, n, g.noC)
+  | none => none
+
+theorem strip_nameToks (name : SName) (l : List Tok) :
+    strip (nameToks name ++ l) = nameToks (SName.noC name) ++ strip l := by
+  cases name with
+  | none => rfl
+  | some p =>
+    obtain ⟨q, n, g⟩ := p
+    simp only [nameToks, SName.noC, List.cons_append]
+    rw [strip_keep _ _ (by simp [strTok]), strip_append, strip_gap]
+
+theorem SName.noC_value (name : SName) : (SName.noC name).map (·.2.1) = name.map (·.2.1) := by
+  cases name with
+  | none => rfl
+  | some p => rfl
+
 mutual
 def SRule.noC : SRule → SRule
   | .comment b => .comment b
   | .style sel blk => .style sel.noC blk.noC
   | .unknown t => .unknown (strip t)
-  | .media kw g1 mq g2 lead rules => .media kw g1.noC (strip mq) g2.noC (lead ++ (SRules.noC rules).1) (SRules.noC rules).2
+  | .media kw g1 mq g2 name lead rules =>
+    .media kw g1.noC (strip mq) g2.noC (SName.noC name) (lead ++ (SRules.noC rules).1) (SRules.noC rules).2
   | .fontface kw g1 blk => .fontface kw g1.noC blk.noC
   | .page kw g0 sel g1 blk => .page kw g0.noC sel.noC g1.noC blk.noC
 /-- the rules without the comment rules; the white space after a dropped comment joins the gap before it -/
@@ -210,8 +230,8 @@ def SRules.noC : SRules → WGap × SRules
   | .cons (.comment _) w rest => (w ++ (SRules.noC rest).1, (SRules.noC rest).2)
   | .cons (.style sel blk) w rest => ([], .cons (SRule.noC (.style sel blk)) (w ++ (SRules.noC rest).1) (SRules.noC rest).2)
   | .cons (.unknown t) w rest => ([], .cons (SRule.noC (.unknown t)) (w ++ (SRules.noC rest).1) (SRules.noC rest).2)
-  | .cons (.media kw g1 mq g2 lead rules) w rest =>
-    ([], .cons (SRule.noC (.media kw g1 mq g2 lead rules)) (w ++ (SRules.noC rest).1) (SRules.noC rest).2)
+  | .cons (.media kw g1 mq g2 name lead rules) w rest =>
+    ([], .cons (SRule.noC (.media kw g1 mq g2 name lead rules)) (w ++ (SRules.noC rest).1) (SRules.noC rest).2)
   | .cons (.fontface kw g1 blk) w rest =>
     ([], .cons (SRule.noC (.fontface kw g1 blk)) (w ++ (SRules.noC rest).1) (SRules.noC rest).2)
   | .cons (.page kw g0 sel g1 blk) w rest =>
@@ -231,9 +251,10 @@ theorem strip_srule : ∀ (r : SRule), (∀ b, r ≠ .comment b) → strip r.tok
   | .style sel blk, _ => by
     simp only [SRule.toks, SRule.noC, strip_append, strip_sel, strip_braces, strip_block]
   | .unknown t, _ => by simp [SRule.toks, SRule.noC]
-  | .media kw g1 mq g2 lead rules, _ => by
+  | .media kw g1 mq g2 name lead rules, _ => by
     simp only [SRule.toks, SRule.noC]
     rw [strip_atTok _ _ _ _ (by decide), strip_append, strip_gap, strip_append, strip_append, strip_gap,
+      strip_nameToks,
       show lbraceTok :: (WGap.toks lead ++ (rules.toks ++ [rbraceTok])) =
         lbraceTok :: ((WGap.toks lead ++ rules.toks) ++ [rbraceTok]) by simp, strip_braces,
       strip_append, strip_wgap, strip_srules rules, wgap_toks_append]
@@ -259,9 +280,9 @@ theorem strip_srules : ∀ (rs : SRules), strip rs.toks = WGap.toks (SRules.noC 
     simp only [SRules.toks, SRules.noC, strip_append, strip_wgap, strip_srules rest, wgap_toks_append,
       strip_srule (.unknown t) (by simp)]
     simp [WGap.toks]
-  | .cons (.media kw g1 mq g2 lead rules) w rest => by
+  | .cons (.media kw g1 mq g2 name lead rules) w rest => by
     simp only [SRules.toks, SRules.noC, strip_append, strip_wgap, strip_srules rest, wgap_toks_append,
-      strip_srule (.media kw g1 mq g2 lead rules) (by simp)]
+      strip_srule (.media kw g1 mq g2 name lead rules) (by simp)]
     simp [WGap.toks]
   | .cons (.fontface kw g1 blk) w rest => by
     simp only [SRules.toks, SRules.noC, strip_append, strip_wgap, strip_srules rest, wgap_toks_append,
@@ -276,7 +297,8 @@ end
 def SImp.noC : SImp → SImp
   | .comment b => .comment b
   | .unknown t => .unknown (strip t)
-  | .import_ kw g1 href g2 mq => .import_ kw g1.noC href g2.noC (mq.map fun p => (strip p.1, p.2.noC))
+  | .import_ kw g1 href g2 mq name =>
+    .import_ kw g1.noC href g2.noC (mq.map fun p => (strip p.1, p.2.noC)) (SName.noC name)
 
 def SNs.noC : SNs → SNs
   | .comment b => .comment b
@@ -288,8 +310,8 @@ def noCImps (tail : WGap) : List (SImp × WGap) → WGap × List (SImp × WGap)
   | [] => (tail, [])
   | (.comment _, w) :: rest => (w ++ (noCImps tail rest).1, (noCImps tail rest).2)
   | (.unknown t, w) :: rest => ([], (SImp.noC (.unknown t), w ++ (noCImps tail rest).1) :: (noCImps tail rest).2)
-  | (.import_ kw g1 href g2 mq, w) :: rest =>
-    ([], (SImp.noC (.import_ kw g1 href g2 mq), w ++ (noCImps tail rest).1) :: (noCImps tail rest).2)
+  | (.import_ kw g1 href g2 mq name, w) :: rest =>
+    ([], (SImp.noC (.import_ kw g1 href g2 mq name), w ++ (noCImps tail rest).1) :: (noCImps tail rest).2)
 
 def noCNss (tail : WGap) : List (SNs × WGap) → WGap × List (SNs × WGap)
   | [] => (tail, [])
@@ -301,11 +323,12 @@ def noCNss (tail : WGap) : List (SNs × WGap) → WGap × List (SNs × WGap)
 theorem strip_href (h : SHref) (l : List Tok) : strip (h.tok :: l) = h.tok :: strip l :=
   strip_keep _ _ (by cases h <;> simp [SHref.tok])
 
-theorem strip_simp_toks (kw : Mask) (g1 : Gap) (href : SHref) (g2 : Gap) (mq : Option (List Tok × Gap)) :
-    strip (SImp.import_ kw g1 href g2 mq).toks = (SImp.noC (.import_ kw g1 href g2 mq)).toks := by
+theorem strip_simp_toks (kw : Mask) (g1 : Gap) (href : SHref) (g2 : Gap) (mq : Option (List Tok × Gap))
+    (name : SName) :
+    strip (SImp.import_ kw g1 href g2 mq name).toks = (SImp.noC (.import_ kw g1 href g2 mq name)).toks := by
   simp only [SImp.toks, SImp.noC]
   rw [strip_atTok _ _ _ _ (by decide), strip_append, strip_gap, strip_href, strip_append, strip_gap, strip_append,
-    strip_semi]
+    strip_nameToks, strip_semi]
   cases mq with
   | none => rfl
   | some p => obtain ⟨m, g3⟩ := p; simp [impMqToks, strip_append, strip_gap]
@@ -336,7 +359,7 @@ theorem strip_imps (tail : WGap) (l : List (SImp × WGap)) :
     | unknown t =>
       simp only [noCImps, renderImps, wgap_toks_append]
       simp [SImp.toks, SImp.noC, WGap.toks]
-    | import_ kw g1 href g2 mq =>
+    | import_ kw g1 href g2 mq name =>
       simp only [noCImps, renderImps, wgap_toks_append, strip_simp_toks]
       simp [WGap.toks]
 
@@ -358,18 +381,83 @@ theorem strip_nss (tail : WGap) (l : List (SNs × WGap)) :
       simp only [noCNss, renderNss, wgap_toks_append, strip_sns_toks]
       simp [WGap.toks]
 
+/-! ### the `@variables` section -/
+
+def SVarDecl.noC (d : SVarDecl) : SVarDecl :=
+  { d with g1 := d.g1.noC, g2 := d.g2.noC, value := strip d.value, g3 := d.g3.noC }
+
+def SVarBlock.noC (b : SVarBlock) : SVarBlock :=
+  { lead := b.lead.noC, items := b.items.map (fun p => (p.1.noC, p.2.noC)), last := b.last.map SVarDecl.noC }
+
+def SVar.noC : SVar → SVar
+  | .comment b => .comment b
+  | .unknown t => .unknown (strip t)
+  | .variables kw g0 blk => .variables kw g0.noC blk.noC
+
+def noCVars (tail : WGap) : List (SVar × WGap) → WGap × List (SVar × WGap)
+  | [] => (tail, [])
+  | (.comment _, w) :: rest => (w ++ (noCVars tail rest).1, (noCVars tail rest).2)
+  | (.unknown t, w) :: rest => ([], (SVar.noC (.unknown t), w ++ (noCVars tail rest).1) :: (noCVars tail rest).2)
+  | (.variables kw g0 blk, w) :: rest =>
+    ([], (SVar.noC (.variables kw g0 blk), w ++ (noCVars tail rest).1) :: (noCVars tail rest).2)
+
+theorem strip_svardecl (d : SVarDecl) : strip d.toks = d.noC.toks := by
+  simp only [SVarDecl.toks, SVarDecl.noC]
+  rw [strip_keep _ _ (by simp [identTok]), strip_append, strip_gap, strip_keep _ _ (by decide), strip_append,
+    strip_gap, strip_append, strip_gap]
+
+theorem strip_varItems (items : List (SVarDecl × Gap)) :
+    strip (renderVarItems items) = renderVarItems (items.map (fun p => (p.1.noC, p.2.noC))) := by
+  induction items with
+  | nil => rfl
+  | cons p rest ih =>
+    obtain ⟨d, g⟩ := p
+    simp only [renderVarItems, List.map_cons, strip_append, strip_svardecl]
+    rw [strip_keep _ _ (by decide), strip_append, strip_gap, ih]
+
+theorem strip_varBlock (b : SVarBlock) : strip b.toks = b.noC.toks := by
+  simp only [SVarBlock.toks, SVarBlock.noC, strip_append, strip_gap, strip_varItems]
+  cases b.last with
+  | none => rfl
+  | some d => simp [renderLastVar, strip_svardecl]
+
+theorem strip_svar_toks (kw : Mask) (g0 : Gap) (blk : SVarBlock) :
+    strip (SVar.variables kw g0 blk).toks = (SVar.noC (.variables kw g0 blk)).toks := by
+  simp only [SVar.toks, SVar.noC]
+  rw [strip_atTok _ _ _ _ (by decide), strip_append, strip_gap, strip_braces, strip_varBlock]
+
+theorem strip_vars (tail : WGap) (l : List (SVar × WGap)) :
+    strip (renderVars l) ++ WGap.toks tail = WGap.toks (noCVars tail l).1 ++ renderVars (noCVars tail l).2 := by
+  induction l with
+  | nil => simp [renderVars, noCVars, strip]
+  | cons p rest ih =>
+    obtain ⟨i, w⟩ := p
+    simp only [renderVars, strip_append, strip_wgap, List.append_assoc, ih]
+    cases i with
+    | comment b =>
+      simp only [SVar.toks, noCVars, wgap_toks_append, strip_commentTok]
+      simp
+    | unknown t =>
+      simp only [noCVars, renderVars, wgap_toks_append]
+      simp [SVar.toks, SVar.noC, WGap.toks]
+    | variables kw g0 blk =>
+      simp only [noCVars, renderVars, wgap_toks_append, strip_svar_toks]
+      simp [WGap.toks]
+
 /-- the spelled sheet the tokenizer shows the parser when comment parsing is off: every comment token is gone -/
 def SSheet.noC (s : SSheet) : SSheet :=
   let r := SRules.noC s.rules
-  let n := noCNss r.1 s.namespaces
+  let v := noCVars r.1 s.variables
+  let n := noCNss v.1 s.namespaces
   let i := noCImps n.1 s.imports
-  { charset := s.charset, lead := s.lead ++ i.1, imports := i.2, namespaces := n.2, rules := r.2 }
+  { charset := s.charset, lead := s.lead ++ i.1, imports := i.2, namespaces := n.2, variables := v.2, rules := r.2 }
 
 /-- **dropping the comment tokens of a rendered sheet gives the rendering of the sheet without comments** -/
 theorem strip_render (s : SSheet) : strip (render s) = render s.noC := by
   have h1 := strip_srules s.rules
-  have h2 := strip_nss (SRules.noC s.rules).1 s.namespaces
-  have h3 := strip_imps (noCNss (SRules.noC s.rules).1 s.namespaces).1 s.imports
+  have h0 := strip_vars (SRules.noC s.rules).1 s.variables
+  have h2 := strip_nss (noCVars (SRules.noC s.rules).1 s.variables).1 s.namespaces
+  have h3 := strip_imps (noCNss (noCVars (SRules.noC s.rules).1 s.variables).1 s.namespaces).1 s.imports
   have hc : strip (charsetPart s.charset) = charsetPart s.charset := by
     cases s.charset with
     | none => rfl
@@ -380,6 +468,8 @@ theorem strip_render (s : SSheet) : strip (render s) = render s.noC := by
   congr 1
   simp only [List.append_assoc]
   congr 1
+  rw [← List.append_assoc (strip (renderVars s.variables)), h0]
+  simp only [List.append_assoc]
   rw [← List.append_assoc (strip (renderNss s.namespaces)), h2, ← List.append_assoc (strip (renderImps s.imports))]
   simp only [List.append_assoc]
   rw [← List.append_assoc (strip (renderImps s.imports)), h3]
@@ -405,6 +495,7 @@ def eraseCRule : ARule → Option ARule
   | .import_ h mq n => some (.import_ h mq n)
   | .namespace_ p u => some (.namespace_ p u)
   | .charset e => some (.charset e)
+  | .variables vs => some (.variables vs)
   | .other k => some (.other k)
 /-- comment rules and comment items removed (and the comments inside unknown at-rules) -/
 def eraseCRules : List ARule → List ARule
@@ -576,8 +667,8 @@ theorem SRule.noC_erase : ∀ (r : SRule), (∀ b, r ≠ .comment b) → eraseCR
   | .comment b, h => absurd rfl (h b)
   | .style sel blk, _ => by simp [SRule.erase, SRule.noC, eraseCRule, SSel.noC_erase, SBlock.noC_erase]
   | .unknown t, _ => by simp [SRule.erase, SRule.noC, eraseCRule]
-  | .media kw g1 mq g2 lead rules, _ => by
-    simp [SRule.erase, SRule.noC, eraseCRule, strip_strip, SRules.noC_erase rules]
+  | .media kw g1 mq g2 name lead rules, _ => by
+    simp [SRule.erase, SRule.noC, eraseCRule, strip_strip, SRules.noC_erase rules, SName.noC_value]
   | .fontface kw g1 blk, _ => by simp [SRule.erase, SRule.noC, eraseCRule, SBlock.noC_erase]
   | .page kw g0 sel g1 blk, _ => by
     simp only [SRule.erase, SRule.noC, eraseCRule, SPageSel.noC, SPageBlock.eraseItems, SPageBlock.eraseMargins,
@@ -598,8 +689,8 @@ theorem SRules.noC_erase : ∀ (rs : SRules), (SRules.noC rs).2.erase = eraseCRu
   | .cons (.unknown t) w rest => by
     simp only [SRules.noC, SRules.erase, eraseCRules, SRule.noC_erase (.unknown t) (by simp), SRules.noC_erase rest]
     simp
-  | .cons (.media kw g1 mq g2 lead rules) w rest => by
-    simp only [SRules.noC, SRules.erase, eraseCRules, SRule.noC_erase (.media kw g1 mq g2 lead rules) (by simp),
+  | .cons (.media kw g1 mq g2 name lead rules) w rest => by
+    simp only [SRules.noC, SRules.erase, eraseCRules, SRule.noC_erase (.media kw g1 mq g2 name lead rules) (by simp),
       SRules.noC_erase rest]
     simp
   | .cons (.fontface kw g1 blk) w rest => by
@@ -639,10 +730,10 @@ theorem noCImps_erase (tail : WGap) (l : List (SImp × WGap)) :
       have e3 : eraseCRule (.unknown t) = some (.unknown (strip t)) := by simp [eraseCRule]
       simp only [noCImps, List.map_cons, e1, e2, eraseCRules_cons, e3, ih]
       rfl
-    | import_ kw g1 href g2 mq =>
-      have e1 : (SImp.noC (.import_ kw g1 href g2 mq)).erase = (SImp.import_ kw g1 href g2 mq).erase := by
-        cases mq <;> simp [SImp.noC, SImp.erase, strip_strip]
-      have e3 : eraseCRule (SImp.import_ kw g1 href g2 mq).erase = some (SImp.import_ kw g1 href g2 mq).erase := by
+    | import_ kw g1 href g2 mq name =>
+      have e1 : (SImp.noC (.import_ kw g1 href g2 mq name)).erase = (SImp.import_ kw g1 href g2 mq name).erase := by
+        cases mq <;> simp [SImp.noC, SImp.erase, strip_strip, SName.noC_value]
+      have e3 : eraseCRule (SImp.import_ kw g1 href g2 mq name).erase = some (SImp.import_ kw g1 href g2 mq name).erase := by
         simp [SImp.erase, eraseCRule]
       simp only [noCImps, List.map_cons, e1, eraseCRules_cons, e3, ih]
       rfl
@@ -673,10 +764,48 @@ theorem noCNss_erase (tail : WGap) (l : List (SNs × WGap)) :
       simp only [noCNss, List.map_cons, e1, eraseCRules_cons, e3, ih]
       rfl
 
+theorem SVarBlock.noC_erase (b : SVarBlock) : b.noC.erase = b.erase := by
+  have e : (b.noC.items.map (fun p => p.1.erase) ++ (b.noC.last.map SVarDecl.erase).toList) =
+      (b.items.map (fun p => p.1.erase) ++ (b.last.map SVarDecl.erase).toList) := by
+    simp only [SVarBlock.noC, List.map_map]
+    congr 1
+    · apply List.map_congr_left
+      intro p _
+      simp [SVarDecl.erase, SVarDecl.noC, strip_strip]
+    · cases b.last <;> simp [SVarDecl.erase, SVarDecl.noC, strip_strip]
+  simp only [SVarBlock.erase, e]
+
+theorem noCVars_erase (tail : WGap) (l : List (SVar × WGap)) :
+    (noCVars tail l).2.map (·.1.erase) = eraseCRules (l.map (·.1.erase)) := by
+  induction l with
+  | nil => rfl
+  | cons p rest ih =>
+    obtain ⟨i, w⟩ := p
+    cases i with
+    | comment b =>
+      have e2 : (SVar.comment b).erase = .comment b := rfl
+      have e3 : eraseCRule (.comment b) = none := by simp [eraseCRule]
+      simp only [noCVars, List.map_cons, e2, eraseCRules_cons, e3, ih]
+      rfl
+    | unknown t =>
+      have e1 : (SVar.noC (.unknown t)).erase = .unknown (strip t) := rfl
+      have e2 : (SVar.unknown t).erase = .unknown t := rfl
+      have e3 : eraseCRule (.unknown t) = some (.unknown (strip t)) := by simp [eraseCRule]
+      simp only [noCVars, List.map_cons, e1, e2, eraseCRules_cons, e3, ih]
+      rfl
+    | variables kw g0 blk =>
+      have e1 : (SVar.noC (.variables kw g0 blk)).erase = (SVar.variables kw g0 blk).erase := by
+        simp [SVar.noC, SVar.erase, SVarBlock.noC_erase]
+      have e3 : eraseCRule (SVar.variables kw g0 blk).erase = some (SVar.variables kw g0 blk).erase := by
+        simp [SVar.erase, eraseCRule]
+      simp only [noCVars, List.map_cons, e1, eraseCRules_cons, e3, ih]
+      rfl
+
 /-- the sheet without comments denotes the abstract sheet without comments -/
 theorem SSheet.noC_erase (s : SSheet) : s.noC.erase = eraseCRules s.erase := by
-  simp only [SSheet.erase, SSheet.noC, eraseCRules_append, noCImps_erase, noCNss_erase, SRules.noC_erase]
-  congr 3
+  simp only [SSheet.erase, SSheet.noC, eraseCRules_append, noCImps_erase, noCNss_erase, noCVars_erase,
+    SRules.noC_erase]
+  congr 4
   cases s.charset <;> simp [eraseCRules, eraseCRule]
 
 end CssVerif.SheetSpec
